@@ -123,7 +123,9 @@ def enc(t, v, rng=None, unknown=False):
             if unknown:
                 known = set(key for key, _, _ in t[2])
                 for _ in range(rng.choice([0, 0, 1, 2])):
-                    uk = rng.choice([100, 1000, -100, 2 ** 31, -2 ** 40, 2 ** 63 - 1, -2 ** 63, rng.randrange(20, 10 ** 6)])
+                    uk = rng.choice([100, 1000, -100, 2 ** 31, -2 ** 40, 2 ** 63 - 1, -2 ** 63, rng.randrange(20, 10 ** 6),
+                                     # keys that alias a defined key once cut to 8, 16 or 32 bits
+                                     rng.choice(sorted(known)) + rng.choice([256, -256, 65536, -65536, 2 ** 32, -2 ** 32, 2 ** 40])])
                     if uk in known: continue
                     entries.append(enc(("I",), uk, rng) + cborgen.gen_item(rng, rng.choice([0, 1, 2, 3]))["b"])
             rng.shuffle(entries)
